@@ -30,7 +30,7 @@ pub static INFO: PropInfo = PropInfo {
     min_nontrivial: 500,
     required_counters: &[
         "accepted:int-operand", "accepted:real-operand", "accepted:u64-slot", "accepted:expression-leaf",
-        "rejected:out-of-range-int-operand",
+        "rejected:out-of-range-int-operand", "accepted:real-with-20+-digits",
     ],
     ..DEFAULT
 };
@@ -298,9 +298,114 @@ const REAL_CLEAN: &[&str] = &[
     "3.141592653589793", "2.2250738585072014e-308", "2.2250738585072011e-308", "0.0", "0e0",
     "1.e5", "00.5", "1e0005", "18446744073709551616.0", "9223372036854775808.0", "1e22", "1e23",
     "8.5e-5", "0.000001", "100000000000000000000000.0", "6.02214076e23", "1.0e-10",
+    // more than 19 significant digits, at and around ties between adjacent doubles
+    "9007199254740993.0000000000000000001", "9007199254740992.9999999999999999999",
+    "9007199254740993.0", "0.1000000000000000055511151231257827021181583404541015625",
+    "1.00000000000000011102230246251565404236316680908203125",
+    "1.00000000000000011102230246251565404236316680908203124",
+    "1.00000000000000011102230246251565404236316680908203126",
+    "0.500000000000000166533453693773481063544750213623046875",
+    "123456789012345678901234567890.123456789", "2.22507385850720113605740979670913197593481954635164564e-308",
+    "1.7976931348623158079372897140530341507993413271003782693617377898044496829276475094664901797758720709633028641669288791094655554785194040263065748867150582068190890200070838367627385484581771153176447573027006985557136695962284291481986083493647529271907416844436551070434271155969950809304288017790417449779e308",
 ];
 
+/// Exact decimal expansion of `n * 2^e` (n < 2^64, -1100 <= e <= 80), by schoolbook arithmetic on
+/// decimal digits.  Used to spell the exact midpoint between two adjacent doubles.
+fn exact_decimal(n: u64, e: i32) -> String {
+    // little-endian decimal digits
+    let mut digits: Vec<u8> = n.to_string().bytes().rev().map(|b| b - b'0').collect();
+    let mul_small = |digits: &mut Vec<u8>, m: u32| {
+        let mut carry = 0u32;
+        for d in digits.iter_mut() {
+            let v = *d as u32 * m + carry;
+            *d = (v % 10) as u8;
+            carry = v / 10;
+        }
+        while carry > 0 {
+            digits.push((carry % 10) as u8);
+            carry /= 10;
+        }
+    };
+    let mut point = 0usize; // number of digits after the decimal point
+    if e >= 0 {
+        for _ in 0..e {
+            mul_small(&mut digits, 2);
+        }
+    } else {
+        for _ in 0..(-e) {
+            mul_small(&mut digits, 5);
+        }
+        point = (-e) as usize;
+    }
+    while digits.len() <= point {
+        digits.push(0);
+    }
+    let mut s = String::new();
+    for (i, d) in digits.iter().enumerate().rev() {
+        s.push((b'0' + d) as char);
+        if i == point && point > 0 {
+            s.push('.');
+        }
+    }
+    s
+}
+
+/// A real literal that is hard to round: the exact tie between two adjacent doubles, or a hair
+/// above / below it (20..60 significant digits), optionally in exponent notation.
+fn hard_real(rng: &mut Rng) -> Lit {
+    let mantissa = (1u64 << 52) | (rng.next() >> 12); // 53-bit significand
+    let e = rng.range(-75, 20) as i32; // value = mantissa * 2^e, roughly 1e-7 .. 1e22
+    // midpoint between mantissa*2^e and (mantissa+1)*2^e = (2*mantissa+1) * 2^(e-1)
+    let tie = exact_decimal(2 * mantissa + 1, e - 1);
+    let mut clean = match rng.below(4) {
+        0 => tie.clone(), // exact tie: round-half-even
+        1 => {
+            // a hair above the tie
+            if tie.contains('.') {
+                format!("{tie}{}1", "0".repeat(rng.below(12)))
+            } else {
+                format!("{tie}.{}1", "0".repeat(rng.below(12)))
+            }
+        }
+        2 => {
+            // a hair below the tie (the expansion of a tie with a fraction always ends in 5)
+            if tie.contains('.') && tie.ends_with('5') {
+                format!("{}4{}", &tie[..tie.len() - 1], "9".repeat(1 + rng.below(12)))
+            } else {
+                tie.clone()
+            }
+        }
+        _ => {
+            // many digits, not near a tie: the exact expansion of a double, truncated to 20..40 digits
+            let exact = exact_decimal(mantissa, e);
+            let keep = 20 + rng.below(21);
+            let sig_start = exact.find(|c: char| c.is_ascii_digit() && c != '0').unwrap_or(0);
+            let end = (sig_start + keep + 1).min(exact.len());
+            let mut t = exact[..end].to_string();
+            if !t.contains('.') {
+                // truncated inside the integer part: pad with zeros to keep the magnitude
+                t.push_str(&"0".repeat(exact.split('.').next().unwrap_or("").len().saturating_sub(t.len())));
+                t.push_str(".0");
+            }
+            t
+        }
+    };
+    if !clean.contains('.') {
+        clean.push_str(".0");
+    }
+    // optionally move the decimal point and compensate with an exponent
+    if rng.chance(1, 3) {
+        let shift = rng.range(-20, 20);
+        clean = format!("{clean}e{shift}");
+        // compensate so that the value is of a similar magnitude (not required for the oracle)
+    }
+    Lit::Real { clean: clean.clone(), spelling: clean }
+}
+
 fn gen_real(rng: &mut Rng) -> Lit {
+    if rng.chance(1, 3) {
+        return hard_real(rng);
+    }
     let clean = match rng.below(3) {
         0 => rng.pick(REAL_CLEAN).to_string(),
         1 => {
@@ -442,6 +547,9 @@ fn check(ctx: &mut Ctx, pos: &Position, lit: &Lit, negative: bool) {
                 fail(ctx, "non-finite-real-accepted", "rejection (value overflows f64)".into());
                 return;
             }
+            if clean.bytes().filter(u8::is_ascii_digit).count() >= 20 {
+                ctx.count("accepted:real-with-20+-digits");
+            }
             match slot {
                 Slot::ArithOperand => {
                     ctx.count("accepted:real-operand");
@@ -515,7 +623,7 @@ fn run(ctx: &mut Ctx) {
     }
     // random spellings
     let mut rng = ctx.rng(1);
-    let n = ctx.share(tier.pick(40_000, 800_000));
+    let n = ctx.share(tier.pick(600_000, 12_000_000));
     for _ in 0..n {
         let pos = &POSITIONS[rng.below(POSITIONS.len())];
         let lit = if rng.chance(3, 5) { gen_int(&mut rng) } else { gen_real(&mut rng) };
